@@ -5,6 +5,7 @@ callee contracts (stubs), every path ends in an Outcome that is checked against
 the function's postconditions by the driver.
 """
 import ast
+import re
 import z3
 from .values import *
 from . import extract
@@ -217,6 +218,8 @@ def wrap_const(c):
 
 
 class Engine:
+    _rlimit_seen = 0      # last value of z3's process-wide 'rlimit count' statistic seen by feasible()
+
     def __init__(self, spec, modinfo, func_node):
         self.spec, self.mod, self.func = spec, modinfo, func_node
         self.obligations = []
@@ -299,6 +302,13 @@ class Engine:
         if c is not None:
             return c
         self.solver_checks += 1
+        if getattr(self.spec, 'length_abstraction', False):
+            # opt-in (sidecar): pure length-arithmetic conditions are decided on an integer abstraction of the path
+            # condition (sound both ways for pruning, see bstruct.arith_feasible); avoids building long sequences
+            from . import bstruct
+            r = bstruct.arith_feasible(st, cond)
+            if r is not None:
+                return r
         s = z3.Solver()
         # pruning only (unknown counts as feasible): a sidecar may shorten it via Spec.feasible_timeout_ms when its
         # path conditions are sequence-heavy and the check would only time out
@@ -306,15 +316,23 @@ class Engine:
         s.set('rlimit', 20000000)
         s.add(*relevant(st.pc, cond))
         s.add(cond)
-        if s.check() != z3.unsat:
-            return True
+        res = s.check()
         # z3 5.1 can report `unsat` when the resource limit cancels the sequence solver (observed on a
         # satisfiable str.substr / uninterpreted-split query; cvc5: sat).  An unsat verdict that coincides with an
         # exhausted rlimit is therefore not trusted: the branch stays feasible (pruning only, never a verdict).
+        # NB: z3's 'rlimit count' statistic is cumulative over the whole process, so the amount spent by THIS check
+        # is the difference to the value seen after the previous check (an over-estimate when other solver calls
+        # ran in between: errs on the side of keeping the branch).
         try:
-            if s.statistics().get_key_value('rlimit count') >= 19000000:
-                return True
+            now = s.statistics().get_key_value('rlimit count')
         except Exception:
+            now = None
+        prev = Engine._rlimit_seen
+        if now is not None:
+            Engine._rlimit_seen = now
+        if res != z3.unsat:
+            return True
+        if now is None or now - prev >= 19000000:
             return True
         return False
 
@@ -1670,6 +1688,24 @@ class Engine:
             it = self.deref(s, it)
             if isinstance(it, (VPy, VSeq)) and getattr(self.spec, 'map_comprehensions', False):
                 out.extend(self.map_comprehension(e, g, s, it))
+                continue
+            if isinstance(it, VSeq) and isinstance(g.target, ast.Name) and isinstance(e.elt, ast.Name) \
+                    and e.elt.id == g.target.id and len(g.ifs) == 1:
+                # pure filter  [x for x in <symbolic list> if cond(x)]: the result is over-approximated by an
+                # uninterpreted sub-list filter_of(list, tag) no longer than the list; cond must be a pure,
+                # non-raising single-outcome expression (checked on a scratch state with a generic element)
+                probe = s.fork()
+                probe.env[g.target.id] = from_z3(z3.Const(fresh_name('filter_elem'), it.z.sort().basis()), it.elem)
+                nob = len(self.obligations)
+                rs = self.ev(g.ifs[0], probe)
+                if len(rs) != 1 or isinstance(rs[0][1], Raised) or rs[0][0] is not probe or \
+                        len(self.obligations) != nob or probe.calls != s.calls or probe.events != s.events:
+                    del self.obligations[nob:]
+                    raise Unsupported(f'filter comprehension with an impure condition at line {e.lineno}')
+                ff = z3.Function('filter_of_' + re.sub(r'\W+', '_', str(it.z.sort())), it.z.sort(), IntS, it.z.sort())
+                r = ff(it.z, z3.IntVal(e.lineno))
+                s.assume(z3.Length(r) <= z3.Length(it.z))
+                out.append((s, VSeq(r, it.elem)))
                 continue
             if not isinstance(it, (VTuple, VList)):
                 raise Unsupported(f'comprehension over symbolic iterable at line {e.lineno}')
